@@ -6,6 +6,8 @@ real function and its spec function can be compared relationally (lockstep.py).
 """
 import ast
 import itertools
+import os
+import sys
 
 import z3
 
@@ -366,6 +368,7 @@ class Exec:
             obj = asV(objs[0][0])
             attr_name = self.ctx.field_of(e.attr)
             hk = (obj.sexpr(), attr_name)
+            self.ctx.heap_terms[hk[0]] = obj
 
             def hget(st, hk=hk, obj=obj, attr=attr_name):
                 if hk in st.heap:
@@ -919,7 +922,13 @@ class Exec:
         if kind == "heap":
             obj, attr = rest.rsplit(".", 1)
             hk = (obj, attr)
-            return Loc(key, lambda st, hk=hk: st.heap.get(hk), lambda st, v, hk=hk: st.heap.__setitem__(hk, v))
+            term = self.ctx.heap_terms.get(obj)
+
+            def hget(st, hk=hk, term=term, attr=attr):
+                if hk in st.heap or term is None:
+                    return st.heap.get(hk)
+                return app("attr_" + attr, term)
+            return Loc(key, hget, lambda st, v, hk=hk: st.heap.__setitem__(hk, v))
         raise KeyError(key)
 
     def havoc(self, st, keys, base, consts=None):
@@ -1003,7 +1012,164 @@ class Exec:
                     break
         return (tuple(parts), tuple(sorted(set(rel))), self.try_depth)
 
+    # -------------------------------------------------------------------------------------------- closed form of list-building loops
+    def closed_form(self, s, xs, p):
+        """A loop whose only effect is to append f(x) (under a condition c(x)) to ONE list -- every comprehension, and the usual
+        `for x in xs: if c(x): L.append(f(x))` -- has the closed form  L = L0 ++ COMP_{c,f}(xs): the list location becomes
+        list_cat(entry value, COMP(xs)), COMP being a function symbol named by a digest of the (condition, appended term) pairs with the
+        element abstracted. Equal bodies give the same symbol whatever the surrounding loop structure (temporary list + extend vs direct
+        append), so such loops need no pairing. Returns the continuing paths, or None if the loop is not of this shape."""
+        import hashlib
+        if self.writes is not None and self.side == "dry":
+            return None
+        targets = {"local:" + n.id for n in ast.walk(s.target) if isinstance(n, ast.Name)}
+        written = [k for k in self.dry_written(s, xs, p) if k not in targets]
+        if os.environ.get("VERIF_CF_DEBUG"):
+            print("CF", self.side, s.lineno, written, file=sys.stderr)
+        if not written:
+            return self.closed_search(s, xs, p)
+        if len(written) != 1:
+            return None
+        key = written[0]
+        try:
+            entry = self.loc_by_key(key).get(p)
+        except KeyError:
+            return None
+        if entry is None or isinstance(entry, (PyC, ClassRef, Closure)):
+            return None
+        q = p.copy()
+        cin = self.havoc(q, [key] + sorted(targets), "cf")
+        elem = fresh("cfelem")
+        n_conds, n_events = len(q.conds), len(q.events)
+        q.conds.append(pred("elem_of", xs, elem))
+        sub = self.sub_exec(self.side)
+        sub.fn_locals, sub.try_depth, sub.pure, sub.loop_hook = self.fn_locals, self.try_depth, self.pure, None
+        sub.ret_sink, sub.exc_sinks = [], [[]]
+        try:
+            body = sub.run_body(s, elem, q)
+        except Unsupported:
+            return None
+        canon = z3.Const("ELEM", V)
+        items = []
+        ev_terms = []
+        for o in body:
+            if o.kind != "next":
+                return None
+            v = self.loc_by_key(key).get(o.st)
+            v = asV(v)
+            c0 = cin[key]
+            if v.eq(c0):
+                appended = None
+            elif z3.is_app(v) and v.decl().name() == "list_app" and v.arg(0).eq(c0):
+                appended = v.arg(1)
+            elif z3.is_app(v) and v.decl().name() == "set_add" and v.arg(0).eq(c0):
+                appended = app("SETITEM", v.arg(1))
+            elif z3.is_app(v) and v.decl().name() == "dict_set" and v.arg(0).eq(c0):
+                appended = app("DICTITEM", v.arg(1), v.arg(2))
+            else:
+                return None
+            conds = o.st.conds[n_conds + 1:]
+            evs = o.st.events[n_events:]
+            if appended is not None and self._mentions(appended, c0):
+                return None
+            if any(self._mentions(c, c0) for c in conds) or any(self._mentions(c, c0) for c, _, _ in evs):
+                return None
+            sub_ = lambda t: z3.substitute(t, (elem, canon))
+            items.append((sorted(sub_(c).sexpr() for c in conds), sub_(appended).sexpr() if appended is not None else "-"))
+            ev_terms.extend(sub_(c).sexpr() for c, _, _ in evs)
+        if not any(it[1] != "-" for it in items):
+            return None
+        digest = hashlib.sha1(repr((sorted(items), sorted(set(ev_terms)))).encode()).hexdigest()[:14]
+        comp = app("COMP_" + digest, xs)
+        ent = asV(entry)
+        kind = "list"
+        if any(it[1].startswith("(SETITEM") for it in items):
+            kind = "set"
+        elif any(it[1].startswith("(DICTITEM") for it in items):
+            kind = "dict"
+        if kind == "list":
+            new = comp if ent.eq(NIL_LIST) else app("list_cat", ent, comp)
+        elif kind == "set":
+            new = app("set_of", comp) if ent.eq(NIL_SET) else app("py_or", ent, app("set_of", comp))
+        else:
+            new = app("dict_of", comp) if ent.eq(NIL_DICT) else app("dict_update", ent, app("dict_of", comp))
+        r = p.copy()
+        self.loc_by_key(key).set(r, new)
+        self.note_write(key)
+        # the loop variables keep the last element's components: a function of the loop alone, named by position in the target pattern
+        order = [n.id for n in ast.walk(s.target) if isinstance(n, ast.Name)]
+        for pos, nm in enumerate(order):
+            self.loc_by_key("local:" + nm).set(r, app("CFLAST_%s_%d" % (digest, pos), xs))
+            self.note_write("local:" + nm)
+        if ev_terms:
+            r2 = self.may_raise(r, fn("COMPEXC_" + digest + "!exc", V, I)(xs), None, s.lineno)
+            if r2 is None:
+                return []
+            r = r2
+        self.ctx.closed_loops = getattr(self.ctx, "closed_loops", 0) + 1
+        return [r]
+
+    def closed_search(self, s, xs, p):
+        """`for x in xs: if c(x): return v` (nothing written, v independent of x) returns v iff any(c(x) for x in xs): the same COMP symbol
+        as the comprehension's, so a search loop and its any(...) form need no pairing."""
+        import hashlib
+        q = p.copy()
+        order = [n.id for n in ast.walk(s.target) if isinstance(n, ast.Name)]
+        self.havoc(q, ["local:" + n for n in order], "cf")
+        elem = fresh("cfelem")
+        n_conds, n_events = len(q.conds), len(q.events)
+        q.conds.append(pred("elem_of", xs, elem))
+        sub = self.sub_exec(self.side)
+        sub.fn_locals, sub.try_depth, sub.pure, sub.loop_hook = self.fn_locals, self.try_depth, self.pure, None
+        sub.ret_sink, sub.exc_sinks = [], [[]]
+        try:
+            body = sub.run_body(s, elem, q)
+        except Unsupported:
+            return None
+        rets = [o for o in body if o.kind == "ret"] + list(sub.ret_sink)
+        nexts = [o for o in body if o.kind == "next"]
+        if os.environ.get("VERIF_CF_DEBUG"):
+            print("CFS", [(o.kind, [str(c)[:80] for c in o.st.conds[n_conds + 1:]]) for o in body], len(sub.ret_sink), file=sys.stderr)
+        if len(rets) != 1 or len(nexts) != 1 or len(body) != 2:
+            return None
+        rc, nc = rets[0].st.conds[n_conds + 1:], nexts[0].st.conds[n_conds + 1:]
+        if len(rc) != 1 or len(nc) != 1 or len(rets[0].st.events) > n_events or len(nexts[0].st.events) > n_events:
+            return None
+        c = rc[0]
+        if not (z3.is_not(nc[0]) and nc[0].arg(0).eq(c)):
+            return None
+        # the value a comprehension would collect for this test: t for truthy(t), the boolean object for a comparison
+        item = c.arg(0) if z3.is_app(c) and c.decl().name() == "truthy" else asV(c)
+        rv = asV(rets[0].value) if rets[0].value is not None else NONE
+        if self._mentions(rv, elem):
+            return None
+        canon = z3.Const("ELEM", V)
+        t = z3.substitute(item, (elem, canon))
+        digest = hashlib.sha1(repr(([([], t.sexpr())], [])).encode()).hexdigest()[:14]
+        found = pred("truthy", app("py_any", app("COMP_" + digest, xs)))
+        res = []
+        pr = p.assume(found)
+        if self.feasible(pr):
+            self.ret_sink.append(Outcome("ret", pr, value=rets[0].value))
+        pn = p.assume(z3.Not(found))
+        if self.feasible(pn):
+            for pos, nm in enumerate(order):
+                self.loc_by_key("local:" + nm).set(pn, app("CFLAST_%s_%d" % (digest, pos), xs))
+                self.note_write("local:" + nm)
+            res.append(pn)
+        self.ctx.closed_loops = getattr(self.ctx, "closed_loops", 0) + 1
+        return res
+
+    def _mentions(self, t, c):
+        if z3.is_const(t):
+            return t.eq(c)
+        return any(self._mentions(a, c) for a in t.children())
+
     def summarised_loop(self, s, xs, p):
+        if self.side != "dry" and not getattr(self.ctx, "no_closed_form", False):
+            cf = self.closed_form(s, xs, p)
+            if cf is not None:
+                return cf
         if self.loop_hook is not None:
             return self.loop_hook(self, s, xs, p)
         cache = self.ctx.loop_cache
